@@ -53,6 +53,7 @@ def plan(tier, seed):
     # beyond the small bound: more than 2^15 atoms; a 31-atom chiral pattern next to its mirror image
     scs += [dict(scale='large', variant=v, atol=0.05, fraction=1.0, replace_all=ra) for v in (0, 1) for ra in (0, 1)]
     scs += [dict(scale='sheet', variant=v, height=0.5, atol=0.2, fraction=1.0, replace_all=ra) for v in (0, 1) for ra in (0, 1)]
+    scs += replace_history_scenarios()
     return dict(scenarios=scs, exhaustive=True, chunk=20,
                 menus=dict(cells=[c[0] for c in G.CELLS], patterns=PATS + ([] if q else ['CH4', 'CHFClBr']), pairs=PAIR_NAMES, replace_all=[False, True], fractions=FRACTIONS, copies=[1, 2, 3, 4],
                            draws='every random.sample subset, every tie-break / vector answer within the bound'),
@@ -152,6 +153,8 @@ def check_execution(c, sc, answers, res, nm, rec, out, case):
 
 def run(sc, ctx):
     out = dict(evals=0, compared=0, violations=[], outcomes={}, hashes={h64(sc)}, nontrivial=0)
+    if 'rhistory' in sc:
+        judge_replace_history(run_replace_history(sc, ctx), sc, out, 'inputs-unmodified'); return out
     c = build_case(sc, ctx)
     case = case_dump(c, sc)
     before = [raw_state(c['s']), raw_state(c['sp']), raw_state(c['rp'])]
